@@ -93,6 +93,13 @@ CATALOGUE: Dict[str, Tuple[str, str]] = {
     "dup_import_in_case": ("none", "import json\nmatch len('ab'):\n    case 2:\n        import json\n    case _:\n        print(0)\nprint(json.dumps(1))"),
     "dup_import_in_finally": ("none", "import json\ntry:\n    print(1)\nfinally:\n    import json\nprint(json.dumps(1))"),
     "dup_import_in_with": ("none", "import json\nimport contextlib\nwith contextlib.nullcontext():\n    import json\nprint(json.dumps(1))"),
+    "missing_import_multiline_docstring": ("none", '"""Doc\n\nmore text\n"""\nprint(os.sep)'),
+    "missing_import_future_parenthesised": ("none", "from __future__ import (\n    annotations,\n)\n\nprint(os.sep, json.dumps(1))"),
+    "dup_functions_longer_name_kept": ("none", "def aa(x):\n    return x + 1\n\n\ndef b(x):\n    return x + 1\n\n\ndef c(x):\n    return b(x)\n\n\ndef dd(x):\n    return b(x)\n\n\nprint(aa(1), b(2), c(3), dd(4))"),
+    "dup_imports_whole_body": ("none", "import os\nimport sys\n\n\ndef f():\n    import os\n    import sys\n\n\nprint(os.sep, sys.maxsize > 0, f())"),
+    "dup_imports_same_line_if": ("none", "import sys\nimport json, re\nif len(sys.argv) > 5: import json, re\nprint(json.dumps(1), re.I)"),
+    "overused_constant_decorated_first": ("none", "import functools\n\n\n@functools.lru_cache(maxsize=None)\ndef f0():\n    return ('north', 'south', 'east', 'west-most')\n\n\n"
+                                          + "".join(f"def f{i}():\n    return ('north', 'south', 'east', 'west-most')\n\n\n" for i in range(1, 5)) + "print(f0(), f1(), f2(), f3(), f4())"),
     "zerodiv_const": ("none", "if 1 / 0:\n    print(1)"),
     "illtyped_const": ("none", "while 'a' < 1:\n    print(1)\n    break"),
     "exit_in_condition": ("none", "if exit():\n    print(1)"),
